@@ -24,7 +24,7 @@ VERIF = os.path.dirname(os.path.dirname(os.path.abspath(__file__)))
 sys.path.insert(0, os.path.join(VERIF, "lib"))
 import gen  # noqa: E402
 
-HARNESS_DIR = os.path.join(VERIF, "harness")
+HARNESS_DIR = os.environ.get("JV_HARNESS_DIR") or os.path.join(VERIF, "harness")  # staging override for development only
 SEED_DIR = os.path.join(VERIF, ".cache", "kani-seed")
 JOBS = int(os.environ.get("JV_JOBS", "14"))
 MEM_GB = int(os.environ.get("JV_MEM_GB", "10"))
